@@ -467,6 +467,8 @@ class PE:
         return False
 
     def _contains(self, container, x):
+        if isinstance(container, Opaque):
+            return x in container
         if isinstance(container, dict):
             try:
                 return self.hashable(x) in container
@@ -793,6 +795,8 @@ class PE:
     def getitem(self, base, idx):
         if isinstance(base, Top):
             return base
+        if isinstance(base, Opaque):
+            return base[idx]
         if isinstance(base, Arr):
             if isinstance(idx, tuple):
                 key = tuple(k if isinstance(k, slice) or k is None or k is Ellipsis or isinstance(k, (Arr, list))
@@ -1227,7 +1231,7 @@ class PE:
     def iterate(self, it):
         if isinstance(it, Top):
             raise Undecidable(f"iteration over unknown: {it.why}")
-        if isinstance(it, (list, tuple, range, str)):
+        if isinstance(it, (list, tuple, range, str, Opaque)):
             return list(it)
         if isinstance(it, (set, frozenset)):
             return sorted(it, key=repr)
@@ -1548,6 +1552,8 @@ class PE:
                 self.module_globals(self.src.modules[base.name])[t.attr] = v
             elif isinstance(base, Top):
                 return
+            elif isinstance(base, Opaque):
+                setattr(base, t.attr, v)
             else:
                 raise PEError(f"attribute store on {type(base).__name__}")
         else:
@@ -1555,6 +1561,9 @@ class PE:
 
     def setitem(self, base, idx, v):
         if isinstance(base, Top):
+            return
+        if isinstance(base, Opaque):
+            base[idx] = v
             return
         if isinstance(base, Arr):
             if isinstance(idx, tuple):
